@@ -34,7 +34,7 @@ var allKinds = []string{kU, kSS, kCS, kBD}
 
 // caseSpec is one member of the grammar; it is also the replay object.
 type caseSpec struct {
-	Kind     string     `json:"kind"`                  // gen | invalid-opt | regen
+	Kind     string     `json:"kind"`                  // gen | files | invalid-opt | regen
 	Services [][]string `json:"services,omitempty"`    // per service of the main file: method kinds in declaration order
 	Naming   string     `json:"naming,omitempty"`      // camel | snake
 	Pkg      string     `json:"pkg"`                   // proto package: p | a.b.c | "" (none)
@@ -45,6 +45,18 @@ type caseSpec struct {
 	Order    string     `json:"order,omitempty"`       // order of file_to_generate: "" = dependency first (topological), "dependent-first" = the file using the other's types is listed first
 	OptKey   string     `json:"opt_key"`               // name of the option set (fingerprints)
 	Param    string     `json:"param"`                 // the plugin parameter string
+
+	// the proto path dimension: path of the main file / of the imported file when it is not the
+	// default one (<package dir>/svc.proto, <package dir>/dep/dep.proto or .../types.proto)
+	MainPath string `json:"main_path,omitempty"`
+	DepPath  string `json:"dep_path,omitempty"`
+
+	// kind "files": one request over a sequence of files, in file_to_generate order. Each entry is
+	// "S" (declares a service over its own messages), "M" (messages only) or "I<t>" (declares a
+	// service whose request/response types are imported from file number t (1-based) of this
+	// list, or from a file of the request that is not generated when t is "x")
+	FileKinds []string `json:"file_kinds,omitempty"`
+	Layout    string   `json:"layout,omitempty"` // one-pkg: every file has the same go_package | pkg-per-file
 
 	// set for members of a fully crossed option group (not part of the replay object): the case
 	// without its options, and the option set as a mask over optAtoms
@@ -73,7 +85,35 @@ func (c caseSpec) shapeKey() string {
 	if c.Order != "" {
 		k += "&order:" + c.Order
 	}
+	if c.MainPath != "" {
+		k += "&main:" + c.MainPath
+	}
+	if c.DepPath != "" {
+		k += "&imported:" + c.DepPath
+	}
+	if c.FileKinds != nil {
+		k += "files:" + strings.Join(c.FileKinds, ",") + "&layout:" + c.Layout
+	}
 	return k
+}
+
+// mainPath / depPath: the proto paths of the two files of a "gen" case.
+func (c caseSpec) mainPath() string {
+	if c.MainPath != "" {
+		return c.MainPath
+	}
+	return mainFileName(c.Pkg)
+}
+
+func (c caseSpec) depPath() string {
+	if c.DepPath != "" {
+		return c.DepPath
+	}
+	d := c.Dep
+	if d == "" {
+		d = "other"
+	}
+	return depFileName(c.Pkg, d)
 }
 
 func (c caseSpec) key() string {
@@ -118,6 +158,50 @@ type requestModel struct {
 	Files []*fileModel // dependency order
 	Param string
 	Order string
+	Gen   []string // when set: file_to_generate, in this order
+}
+
+// genNames: file_to_generate of the request, in order.
+func (rm *requestModel) genNames() []string {
+	if rm.Gen != nil {
+		return rm.Gen
+	}
+	var out []string
+	for _, f := range rm.Files {
+		if f.Generate {
+			if rm.Order == "dependent-first" {
+				out = append([]string{f.Name}, out...)
+			} else {
+				out = append(out, f.Name)
+			}
+		}
+	}
+	return out
+}
+
+func (rm *requestModel) file(name string) *fileModel {
+	for _, f := range rm.Files {
+		if f.Name == name {
+			return f
+		}
+	}
+	return nil
+}
+
+// kindOfFile: S = declares services over its own messages, I = declares services that use
+// messages of another file, M = declares no service.
+func kindOfFile(f *fileModel) string {
+	if len(f.Svcs) == 0 {
+		return "M"
+	}
+	for _, s := range f.Svcs {
+		for _, m := range s.Methods {
+			if (m.Req.File != f && !m.Req.File.External) || (m.Resp.File != f && !m.Resp.File.External) {
+				return "I"
+			}
+		}
+	}
+	return "S"
 }
 
 func pkgDir(pkg string) string {
@@ -200,11 +284,14 @@ func goCamel(s string) string {
 }
 
 func buildModel(c caseSpec) (*requestModel, error) {
+	if c.Kind == "files" {
+		return buildFilesModel(c)
+	}
 	rm := &requestModel{Param: c.Param, Order: c.Order}
 	if c.Order != "" && c.Order != "dependent-first" {
 		return nil, fmt.Errorf("unknown file order %q", c.Order)
 	}
-	main := &fileModel{Name: mainFileName(c.Pkg), ProtoPkg: c.Pkg, GoPackage: mainGoPackage(c.Pkg), Generate: true}
+	main := &fileModel{Name: c.mainPath(), ProtoPkg: c.Pkg, GoPackage: mainGoPackage(c.Pkg), Generate: true}
 	local := map[string]*msgModel{}
 	addMsg := func(f *fileModel, protoName, goName string) *msgModel {
 		m := &msgModel{File: f, Proto: qual(f.ProtoPkg, protoName), GoName: goName}
@@ -223,7 +310,10 @@ func buildModel(c caseSpec) (*requestModel, error) {
 		if c.Dep == "" {
 			return nil, fmt.Errorf("case uses imported types but names no dep placement")
 		}
-		dep = &fileModel{Name: depFileName(c.Pkg, c.Dep)}
+		dep = &fileModel{Name: c.depPath()}
+		if dep.Name == main.Name {
+			return nil, fmt.Errorf("the main file and the imported file have the same path %q", dep.Name)
+		}
 		switch c.Dep {
 		case "same":
 			dep.ProtoPkg, dep.GoPackage = c.Pkg, mainGoPackage(c.Pkg)
@@ -373,14 +463,8 @@ func (rm *requestModel) pb() *pluginpb.CodeGeneratorRequest {
 	// follows the command line, which need not be
 	for _, f := range rm.Files {
 		req.ProtoFile = append(req.ProtoFile, f.proto)
-		if f.Generate {
-			if rm.Order == "dependent-first" {
-				req.FileToGenerate = append([]string{f.Name}, req.FileToGenerate...)
-			} else {
-				req.FileToGenerate = append(req.FileToGenerate, f.Name)
-			}
-		}
 	}
+	req.FileToGenerate = rm.genNames()
 	return req
 }
 
